@@ -10,7 +10,7 @@ ANCHORS = ["pyoma2.functions.fdd:SD_est"]
 REQUIRED_MONITORS = ["grid+shape", "welch-equivalence(per)", "hermitian-psd(per)", "bilinear+g2(per)", "bilinear+g2(cor)", "parseval(per)",
                      "gain-delay(per)", "gain-delay(cor)", "sinusoid-ratio(per)"]
 ALL_STATES = ["pov=0", "pov=0.25", "pov=0.5", "pov=0.75", "ref=all", "ref=subset", "nxseg not a power of two", "nxseg with a prime factor > 5", "negative gain", "1 channel"]
-REQUIRED_STATES = ["pov=0", "pov=0.25", "pov=0.75", "ref=subset", "negative gain", "nxseg with a prime factor > 5", "odd nxseg", "arguments given by position"]
+REQUIRED_STATES = ["pov=0", "pov=0.25", "pov=0.75", "ref=subset", "negative gain", "nxseg with a prime factor > 5", "odd nxseg", "arguments given by position", "record amplitude below 1e-5", "integer-stored records"]
 RULE = ("random records (1..8 channels, 1..4 references, 2..10 segments), nxseg in {16..4096} incl. non powers of two, integer nxseg*pov, fs "
         "log-uniform; 'per' compared entry by entry with an independently written Welch estimate (lines >= 2); bilinearity/g^2, Hermitian PSD, "
         "Parseval; multi-channel gain-and-delay records (each entry (i,j) must show gain g_j/g_i and phase -2 pi f (d_j-d_i)/fs); sinusoids at "
@@ -103,7 +103,12 @@ def run_welch(ctx, rng):
     nref = int(rng.integers(1, min(4, nch) + 1))
     fs = float(10 ** rng.uniform(-1, 3.5))
     N = int(nx * rng.uniform(2, 10))
-    Y = gen.coloured(rng, nch, N) * 10 ** rng.uniform(-3, 3)
+    Y = gen.coloured(rng, nch, N) * 10 ** (rng.uniform(-3, 3) if rng.random() < 0.7 else rng.uniform(-10, -3))
+    if np.std(Y) < 1e-5:
+        ctx.state("record amplitude below 1e-5")
+    if rng.random() < 0.12:
+        Y = np.round(gen.coloured(rng, nch, N) * float(rng.choice([3, 40, 5000]))).astype(rng.choice([np.int32, np.int64]))  # raw counts
+        ctx.state("integer-stored records")
     refidx = [int(i) for i in rng.permutation(nch)[:nref]]
     allref = rng.random() < 0.3
     Yr = Y if allref else Y[refidx]
